@@ -37,7 +37,7 @@ def Frame.clean : Frame → Prop
 /-- Frames that may lie below other frames. -/
 def Frame.resting : Frame → Bool
   | .bodyActs _ _ _ _ => false
-  | .exclActs _ _ => false
+  | .exclActs _ _ => true     -- (a mid-body `world.flush()` leaves the body's frame below the flush)
   | .topActs _ _ => false
   | .cleanup _ => false
   | _ => true
@@ -46,7 +46,7 @@ def Frame.resting : Frame → Bool
 def TopOK (s : St) : Frame → Prop
   | .bodyActs _ k _ acc => SubFlags s k ∧ cleanList acc ∧ s.wq = []
   | .cleanup k => SubFlags s k ∧ s.wq = []
-  | .exclActs _ _ => ∃ k tl, s.wq = Cmd.cleanup k :: tl ∧ cleanList tl ∧ SubFlags s k
+  | .exclActs _ _ => (∃ k tl, s.wq = Cmd.cleanup k :: tl ∧ cleanList tl ∧ SubFlags s k) ∨ (Idle s ∧ cleanList s.wq)
   | .flush => (∃ k tl, s.wq = Cmd.cleanup k :: tl ∧ cleanList tl ∧ SubFlags s k) ∨ (Idle s ∧ cleanList s.wq)
   | .batch cs => (∃ k tl, cs = Cmd.cleanup k :: tl ∧ cleanList tl ∧ SubFlags s k ∧ s.wq = []) ∨ (Idle s ∧ cleanList cs ∧ s.wq = [])
   | .topActs _ _ => Idle s ∧ cleanList s.wq
@@ -63,6 +63,7 @@ theorem topOK_reveal (s : St) (g : Frame) (hi : Idle s) (hw : s.wq = []) (hc : g
   cases g <;> simp only [TopOK, Frame.resting] at * <;> try exact ⟨hi, hw⟩
   case batch cs => exact Or.inr ⟨hi, hc, hw⟩
   case flush => exact Or.inr ⟨hi, by rw [hw]; intro c hc; cases hc⟩
+  case exclActs => exact Or.inr ⟨hi, by rw [hw]; intro c hc; cases hc⟩
   all_goals cases hr
 
 theorem flag_pop {s' : St} {rest : List Frame} (hst : s'.stack = rest) (hi : Idle s') (hw : s'.wq = [])
@@ -361,17 +362,40 @@ theorem flag_runFrame (p : Prog) (hh : Hist) {s : St} {f : Frame} {rest : List F
       simp only [Fl, Prod.mk.injEq] at hfl
       cases k <;> simp only [SubFlags, Idle, Fl, Prod.mk.injEq] at hsub ⊢ <;> simp_all
   | exclActs sys i =>
-    obtain ⟨k, tl, hwq, htl, hsub⟩ := htop
     simp only [runFrame, doExclActs]
-    split
-    · refine flag_push (g := .flush) (gs := []) (by simp [St.push, St.emit]) ?_ (by intro x hx; cases hx) hrest
-      exact Or.inl ⟨k, tl, by simp [St.emit, hwq], htl, hsub⟩
-    · rename_i a _
-      refine flag_push (g := .exclActs sys (i + 1)) (gs := []) (by simp [St.push]) ?_ (by intro x hx; cases hx) hrest
-      refine ⟨k, tl ++ (enqueue ({ s with stack := rest } : St) a).2, by simp [hwq], cleanList_append htl (enqueue_clean _ a), ?_⟩
-      have hfl := Fl_enqueue ({ s with stack := rest } : St) a
-      simp only [Fl, Prod.mk.injEq] at hfl
-      cases k <;> simp only [SubFlags, Idle, Fl, Prod.mk.injEq] at hsub ⊢ <;> simp_all
+    rcases htop with ⟨k, tl, hwq, htl, hsub⟩ | ⟨hi, hcl⟩
+    · split
+      · refine flag_push (g := .flush) (gs := []) (by simp [St.push, St.emit]) ?_ (by intro x hx; cases hx) hrest
+        exact Or.inl ⟨k, tl, by simp [St.emit, hwq], htl, hsub⟩
+      · rename_i a _
+        have hnew : ∃ k' tl', (enqueue ({ s with stack := rest } : St) a).1.wq ++ (enqueue ({ s with stack := rest } : St) a).2 = Cmd.cleanup k' :: tl' ∧
+            cleanList tl' ∧ SubFlags (enqueue ({ s with stack := rest } : St) a).1 k' := by
+          refine ⟨k, tl ++ (enqueue ({ s with stack := rest } : St) a).2, by simp [hwq], cleanList_append htl (enqueue_clean _ a), ?_⟩
+          have hfl := Fl_enqueue ({ s with stack := rest } : St) a
+          simp only [Fl, Prod.mk.injEq] at hfl
+          cases k <;> simp only [SubFlags, Idle, Fl, Prod.mk.injEq] at hsub ⊢ <;> simp_all
+        obtain ⟨k', tl', e1, e2, e3⟩ := hnew
+        split
+        · refine flag_push (g := .flush) (gs := [.exclActs sys (i + 1)]) (by simp [St.push]) ?_
+            (by intro x hx; simp at hx; subst hx; exact ⟨trivial, rfl⟩) hrest
+          exact Or.inl ⟨k', tl', by simpa [St.push] using e1, e2, by cases k' <;> simpa [SubFlags, Idle, Fl, St.push] using e3⟩
+        · refine flag_push (g := .exclActs sys (i + 1)) (gs := []) (by simp [St.push]) ?_ (by intro x hx; cases hx) hrest
+          exact Or.inl ⟨k', tl', by simpa [St.push] using e1, e2, by cases k' <;> simpa [SubFlags, Idle, Fl, St.push] using e3⟩
+    · split
+      · refine flag_push (g := .flush) (gs := []) (by simp [St.push, St.emit]) ?_ (by intro x hx; cases hx) hrest
+        exact Or.inr ⟨by simpa [Idle, Fl, St.emit] using hi, by simpa [St.emit] using hcl⟩
+      · rename_i a _
+        have hfl := Fl_enqueue ({ s with stack := rest } : St) a
+        have hi' : Idle (enqueue ({ s with stack := rest } : St) a).1 := by
+          simp only [Idle] at hi ⊢; rw [hfl]; exact hi
+        have hcl' : cleanList ((enqueue ({ s with stack := rest } : St) a).1.wq ++ (enqueue ({ s with stack := rest } : St) a).2) := by
+          rw [enqueue_wq]; exact cleanList_append hcl (enqueue_clean _ a)
+        split
+        · refine flag_push (g := .flush) (gs := [.exclActs sys (i + 1)]) (by simp [St.push]) ?_
+            (by intro x hx; simp at hx; subst hx; exact ⟨trivial, rfl⟩) hrest
+          exact Or.inr ⟨by simpa [Idle, Fl, St.push] using hi', by simpa [St.push] using hcl'⟩
+        · refine flag_push (g := .exclActs sys (i + 1)) (gs := []) (by simp [St.push]) ?_ (by intro x hx; cases hx) hrest
+          exact Or.inr ⟨by simpa [Idle, Fl, St.push] using hi', by simpa [St.push] using hcl'⟩
   | topActs t i =>
     obtain ⟨hi, hcl⟩ := htop
     simp only [runFrame, doTopActs]
@@ -441,7 +465,7 @@ theorem flag_runFrame (p : Prog) (hh : Hist) {s : St} {f : Frame} {rest : List F
             · intro g hg; simp at hg; rcases hg with rfl | rfl <;> exact ⟨trivial, rfl⟩
           · split
             · refine flag_push (g := .exclActs sys 0) (gs := [.afterBody sys idx]) (by simp [St.push]) ?_ (allOK_one trivial rfl) hrest
-              exact ⟨k, [], by simp [hw], cleanList_nil, hsub⟩
+              exact Or.inl ⟨k, [], by simp [hw], cleanList_nil, hsub⟩
             · refine flag_push (g := .bodyActs sys k 0 []) (gs := [.afterBody sys idx]) (by simp [St.push]) ?_ (allOK_one trivial rfl) hrest
               exact ⟨hsub, cleanList_nil, by simp [hw]⟩
   | afterBody sys idx =>
